@@ -15,6 +15,8 @@ import rb
 
 def histories(sc, limit):
     ops = sc["ops"]
+    if "no-conformance" in sc.get("tags", []):
+        return []
     ninjas = [i for i, o in enumerate(ops) if o["op"] == "ninja" and not o.get("tool") and not o.get("crash")
               and not o.get("interrupt") and not o.get("edits_during") and not o.get("expect_error")]
     plain = [i for i in ninjas if not ops[i].get("faults") and not ops[i]["targets"] and not ops[i].get("dry_run")]
